@@ -202,18 +202,20 @@ async fn resolve_with_nameserver_response<'a>(
         } => {
             context.cache.insert_all(&rrs);
             if question.qtype == QueryType::Record(RecordType::A) {
-                if let Some(rr) = get_record(&rrs, &question.name, RecordType::A) {
+                let glue = get_records(&rrs, &question.name, RecordType::A);
+                if !glue.is_empty() {
                     tracing::trace!("got recursive delegation - using glue A record");
-                    prioritising_merge(&mut combined_rrs, vec![rr.clone()]);
+                    prioritising_merge(&mut combined_rrs, glue);
                     return Ok(Ok(ResolvedRecord::NonAuthoritative {
                         rrs: combined_rrs,
                         soa_rr: None,
                     }));
                 }
             } else if question.qtype == QueryType::Record(RecordType::AAAA) {
-                if let Some(rr) = get_record(&rrs, &question.name, RecordType::AAAA) {
+                let glue = get_records(&rrs, &question.name, RecordType::AAAA);
+                if !glue.is_empty() {
                     tracing::trace!("got recursive delegation - using glue AAAA record");
-                    prioritising_merge(&mut combined_rrs, vec![rr.clone()]);
+                    prioritising_merge(&mut combined_rrs, glue);
                     return Ok(Ok(ResolvedRecord::NonAuthoritative {
                         rrs: combined_rrs,
                         soa_rr: None,
@@ -617,6 +619,18 @@ fn get_record<'a>(
 ) -> Option<&'a ResourceRecord> {
     rrs.iter()
         .find(|&rr| rr.rtype_with_data.rtype() == rtype && rr.name == *target)
+}
+
+/// Like `get_record`, but returns every matching record.
+fn get_records(
+    rrs: &[ResourceRecord],
+    target: &DomainName,
+    rtype: RecordType,
+) -> Vec<ResourceRecord> {
+    rrs.iter()
+        .filter(|rr| rr.rtype_with_data.rtype() == rtype && rr.name == *target)
+        .cloned()
+        .collect()
 }
 
 /// Verification hook: the private reply filter, as is.
